@@ -86,6 +86,31 @@ def run(run):
                     if not np.allclose(want, model, rtol=0, atol=1e-9 * np.abs(U).max()):
                         run.violation("angularSpectrum:transfer-function", dict(N=N, total=c["total"], phys=phys), c)
                         break
+        # the group law does not depend on the grid being even: the same programs on odd grids (code against code)
+        n_odd = 0
+        for N in (3, 5, 7):
+            U = rng.standard_normal((N, N)) + 1j * rng.standard_normal((N, N))
+            for k, c in enumerate([c for c in progs if c["N"] == progs[0]["N"]][::7]):
+                phys = PI.PHYS[k % len(PI.PHYS)]
+                lam, d1, z0 = phys
+                got = run_program(op, c["prog"], N, phys, U.copy())
+                want = U if c["total"] == 0 else np.asarray(op.angularSpectrum(U.copy(), lam, d1, d1, c["total"] * z0))
+                n_odd += 1
+                if got.shape != U.shape or not np.allclose(got, want, rtol=0, atol=1e-9 * np.abs(U).max() * max(1, len(c["prog"]))):
+                    run.violation("angularSpectrum:group-law:odd-grid", dict(N=N, prog=c["prog"], total=c["total"], phys=phys,
+                                                                             err=float(np.abs(got - want).max())), dict(c, N=N))
+                    break
+        n_prog += n_odd
+        # the caller's field is still the caller's field after a call (complex input, magnification != 1)
+        for N in sorted(fields):
+            U = fields[N][0].copy()
+            keep = U.copy()
+            for m in (1.5, 1.0, 0.5):
+                o1 = np.array(op.angularSpectrum(U, 1e-6, 1e-2, m * 1e-2, 150.0), copy=True)
+                o2 = np.asarray(op.angularSpectrum(U, 1e-6, 1e-2, m * 1e-2, 150.0))
+                if not np.array_equal(U, keep) or not np.array_equal(o1, o2):
+                    run.violation("angularSpectrum:input-field-modified", dict(N=N, m=m), dict(kind="zero", N=N))
+                    break
         # distance zero returns the input
         for N in sorted(fields):
             U = fields[N][0]
